@@ -71,7 +71,7 @@ fn c01_inverse(lo: i32, hi: i32) {
     kani::cover!(n == hi);
 }
 
-//@ unit c01_accept prop=C01,C02 bound="every (i32 year, u32 month, u32 day) triple - 2^96 triples"
+//@ unit c01_accept q23=1 prop=C01,C02 bound="every (i32 year, u32 month, u32 day) triple - 2^96 triples"
 fn c01_accept() {
     let y: i32 = kani::any();
     let m: u32 = kani::any();
@@ -114,7 +114,7 @@ fn c01_accept() {
     }
 }
 
-//@ unit c01_from_days prop=C01,C02 bound="every i32 day number"
+//@ unit c01_from_days q23=1 prop=C01,C02 bound="every i32 day number"
 fn c01_from_days() {
     let n: i32 = kani::any();
     let r = Date::try_from_days(n);
